@@ -130,7 +130,7 @@ func genC18(rng *rand.Rand, c *Case) {
 	c.Cfg["posterlen"] = []int{1, 12, 31, 200, 255}[rng.Intn(5)]
 	n := 6 + rng.Intn(30)
 	for i := 0; i < n; i++ {
-		k := []string{"bundle", "category", "post", "post", "post", "reply", "reply", "delart", "delitem", "restart", "category"}[rng.Intn(11)]
+		k := []string{"bundle", "category", "post", "post", "post", "reply", "reply", "delart", "delitem", "restart", "category", "stale", "stale"}[rng.Intn(13)]
 		tl := []int{0, 1, 20, 200, 255}[rng.Intn(5)]
 		bl := []int{0, 1, 100, 5000, 64000}[rng.Intn(5)]
 		c.Ops = append(c.Ops, Op{K: k, N: []int{rng.Intn(1 << 20), rng.Intn(1 << 20), tl, bl}})
@@ -434,6 +434,54 @@ func runC18(w *World) {
 				delete(root.at(path[:len(path)-1]).Children, path[len(path)-1])
 				if !checkCats(path[:len(path)-1], when) {
 					return
+				}
+			case "stale":
+				// a request whose path names a component that does not exist (any more): whatever the answer, nothing
+				// that is present may change and nothing may be shown under the missing path
+				all := append(append([][]string{}, cats...), bundles...)
+				base := all[op.N[0]%len(all)]
+				pos := 0
+				if len(base) > 0 {
+					pos = op.N[1] % (len(base) + 1)
+				}
+				stale := append(append(append([]string{}, base[:pos]...), fmt.Sprintf("Gone%d", op.N[1]%5)), base[pos:]...)
+				if op.N[2]%2 == 1 && len(base) > 0 {
+					// replace instead of insert
+					stale = append(append(append([]string{}, base[:pos%len(base)]...), fmt.Sprintf("Gone%d", op.N[1]%5)), base[pos%len(base)+1:]...)
+				}
+				seq++
+				sc := w.NewClient("stale", fmt.Sprintf("10.2.%d.%d", seq/250, seq%250+1))
+				if !sc.Login("guest", "", "stale", 1) {
+					w.Violate("c18-login", "could not log in")
+					return
+				}
+				kind := op.N[0] / 7 % 5
+				w.Probe(fmt.Sprintf("stale_path_requests_kind%d", kind))
+				switch kind {
+				case 0:
+					sc.PostArticle(stale, 0, "stale title", "stale body")
+				case 1:
+					sc.DelArticle(stale, uint32(1+op.N[1]%3))
+				case 2:
+					sc.NewNewsCat(stale, "StaleCat")
+				case 3:
+					sc.NewNewsBundle(stale, "StaleBundle")
+				case 4:
+					if rep, ok := sc.ListCategories(stale); ok && rep.Err == 0 && len(rep.GetAll(rp.FNewsCatListData15)) > 0 {
+						w.Violate("c18-phantom-category", "%s: category list of %q, which does not exist, shows %d entries", when, stale, len(rep.GetAll(rp.FNewsCatListData15)))
+						return
+					}
+				}
+				sc.Disconnect()
+				for _, b := range bundles {
+					if !checkCats(b, when) {
+						return
+					}
+				}
+				for _, ct := range cats {
+					if !checkArts(ct, when) {
+						return
+					}
 				}
 			case "restart":
 				w.StopServer()
